@@ -28,12 +28,169 @@ REGRESS = [("Python", 'def f():\n    """doc\n    more\n    """\n'),            #
            ("Python", "def o():\n  def f():\n      def\n  g():\n    pass\n")]   # name outside the span
 
 
+MODEL_CHARS = 10 ** 4      # longer single lines / bigger ladder programs: direct oracle only
+
+
 def cases(ctx):
     out = list(REGRESS)
-    out += [(l, t) for (l, t, _) in scan_streams.canonical(ctx, ctx.pick(40, 600), "c05")]
+    canon = scan_streams.canonical(ctx, ctx.pick(40, 600), "c05")
+    out += [(l, t) for (l, t, _) in canon]
     out += scan_streams.soups(ctx, ctx.pick(2000, 50000), "c05soup")
     out += scan_streams.corpus_cases()
+    # configuration variants: canonical programs on ONE line without any newline, behind a byte order mark, both;
+    # and the same for a share of every other text (there: newlines replaced by blanks)
+    rnd = ctx.rng("c05variants")
+    for (lang, text, o) in canon:
+        one = scan_streams.one_line(o)
+        for v in ([one, scan_streams.BOM + one] if one else []) + [scan_streams.BOM + text, scan_streams.BOM + text.rstrip("\n")]:
+            if rnd.random() < ctx.pick(0.3, 0.5):
+                out.append((lang, v))
+    out += scan_streams.decorate(ctx, out, ctx.pick(0.06, 0.1), "c05decor")
+    out += [(lang, text) for (lang, text, d) in long_cases(ctx) if d["chars"] <= MODEL_CHARS]
     return [(l, t) for (l, t) in out if "\r" not in t]
+
+
+def long_cases(ctx):
+    """single-line ladder 10^2 .. 10^6 characters (the shapes whose token count grows with the size: up to 10^5)"""
+    if getattr(ctx, "_c05long", None) is None:
+        light = scan_streams.rungs(100, 10 ** 4, True) + ctx.pick([10 ** 5, 10 ** 6], scan_streams.rungs(31623, 3162278))
+        heavy = scan_streams.rungs(100, 10 ** 4, True) + ctx.pick([10 ** 5], scan_streams.rungs(31623, 316228))
+        ctx._c05long = scan_streams.long_lines(ctx, light, heavy, per_rung=ctx.pick(2, 7), salt="c05long", full_upto=100)
+    return ctx._c05long
+
+
+def ladder_cases(ctx):
+    """programs of 10^2 .. 10^4 lines (one function / many functions), whole and cut at a random character"""
+    import random
+    if getattr(ctx, "_c05ladder", None) is None:
+        out = []
+        for (lang, text, o, d) in scan_streams.ladder_programs(ctx, ctx.pick([1000], [316, 3162, 10 ** 4]), ctx.pick([1000], [316, 1000, 3162, 10 ** 4]),
+                                                              "c05ladder", many_python=ctx.pick([1000], [316, 1000, 3162])):
+            cut = random.Random(d["gen_seed"]).randrange(len(text) // 2, len(text))
+            out.append(dict(d, cut=cut))
+            out.append(d)
+        ctx._c05ladder = out
+    return ctx._c05ladder
+
+
+def big_text(desc):
+    if desc.get("stream") == "long-line":
+        return scan_streams.long_text(desc)
+    text = scan_streams.ladder_program(desc)[1]
+    return text[:desc["cut"]] if "cut" in desc else text
+
+
+def _big_work(desc):
+    code = big_text(desc)
+    r = sr.real_scan(desc["language"], code)
+    return r[:300], oracle(desc["language"], code, r)
+
+
+def big_jobs(ctx):
+    jobs = [d for (_, _, d) in long_cases(ctx) if d["chars"] > MODEL_CHARS] + ladder_cases(ctx)
+    jobs.sort(key=lambda d: -d.get("chars", 30 * d.get("lines", 0)))
+    return jobs
+
+
+def _chunk_work(chunk):
+    out = []
+    for (lang, code) in chunk:
+        r = sr.real_scan(lang, code)
+        out.append((r, oracle(lang, code, r)))
+    return out
+
+
+def big_failures(ctx, dist=None, started=None):
+    """the upper rungs: real analysis + direct oracle, one input per worker process"""
+    jobs = big_jobs(ctx)
+    fails = []
+    for d, (r, bad) in zip(jobs, (started or scan_streams.Heavy(_big_work, jobs)).results()):
+        if dist is not None:
+            key = "long_lines" if d["stream"] == "long-line" else "ladder_programs"
+            size = str(d.get("chars", d.get("lines")))
+            dist.setdefault(key, {})[size] = dist.setdefault(key, {}).get(size, 0) + 1
+            if not r.startswith("ok 0 "):
+                dist["with_functions"] += 1
+        for b in bad[:1]:
+            fails.append({"input": dict(d), "observed": r, "required": b})
+    fails.sort(key=lambda f: f["input"].get("chars", f["input"].get("lines", 0)))
+    for f in [f for f in fails if f["input"]["stream"] == "long-line"][:2]:
+        d = f["input"]
+        small = scan_streams.bisect_size(lambda k, d=d: bool(_big_work(dict(d, chars=k))[1]), 0, d["chars"])
+        r, bad = _big_work(dict(d, chars=small))
+        if bad:
+            f.update({"input": dict(d, chars=small, found_at_chars=d["chars"]), "observed": r, "required": bad[0]})
+    fails.sort(key=lambda f: f["input"].get("chars", f["input"].get("lines", 0)))
+    return len(jobs), fails
+
+
+def second_scan_probe(lang, code):
+    """state probe: scan_file twice on the SAME token list and Language object; the first result is mutated in between
+    (list emptied, measurements and their locations overwritten); then the whole pipeline once more from the text"""
+    from codelimit.common.lexer_utils import lex
+    from codelimit.common.Scanner import scan_file
+    from codelimit.languages import Languages
+
+    def snap(ms):
+        return [(m.unit_name, m.start.line, m.start.column, m.end.line, m.end.column, m.value) for m in ms]
+    try:
+        toks = lex(sr.lexer_for(lang), code, False)
+        before = [(t.location.line, t.location.column, t.value) for t in toks]
+        first = scan_file(toks, Languages.by_name[lang])
+        s1 = snap(first)
+        for m in first:
+            # NOTE: m.start IS the header token's Location object (scan_file passes it on), so writing to its fields
+            # would edit the caller's token list; nothing in Code Limit assigns to a Location, and no property speaks
+            # about callers doing so - the probe therefore rebinds `start` and edits only what the result owns
+            try:
+                m.end.line += 7; m.end.column = 0
+            except AttributeError:
+                pass
+            m.start = m.end
+            m.unit_name = "?"; m.value = -1
+        del first[:]
+        bad = []
+        if [(t.location.line, t.location.column, t.value) for t in toks] != before:
+            bad.append("scan_file changed the token list it was given")
+        s2 = snap(scan_file(toks, Languages.by_name[lang]))
+        s3 = snap(scan_file(lex(sr.lexer_for(lang), code, False), Languages.by_name[lang]))
+    except RecursionError:
+        return []
+    except Exception as e:  # noqa
+        return ["second scan raised %r" % (e,)]
+    if s1 != s3:
+        bad.append("a fresh analysis of the same text differs from the first one")
+    if s1 != s2:
+        bad.append("second scan_file on the same token list differs from the first (first result mutated in between)")
+    return bad
+
+
+def code_tokens(lang, code, skip=0):
+    """the lexer's code tokens (not white space, not comments) with positions computed HERE from the offsets Pygments
+    reports - independent of Code Limit's own lexing wrapper: [(line, column, end line, end column, is_name, text)].
+    `skip`: lex the text behind a leading byte order mark (both readings of such a file are accepted)"""
+    from bisect import bisect_right
+    from pygments.token import Comment, Name
+    st = [0]
+    i = code.find("\n")
+    while i >= 0:
+        st.append(i + 1)
+        i = code.find("\n", i + 1)
+    out = []
+    for (off, tt, val) in sr.lexer_for(lang).get_tokens_unprocessed(code[skip:]):
+        if tt in Comment or (sr.kind_of(tt) == 6 and (val == "" or val.isspace())):
+            continue
+        off += skip
+        l = bisect_right(st, off)
+        e = off + len(val)
+        el = bisect_right(st, e - 1) if val else l
+        # a token that ends with a newline ends at column 1 of the following line in the convention of the measurements
+        if val.endswith("\n"):
+            el, ec = el + 1, 1
+        else:
+            ec = e - st[el - 1] + 1
+        out.append((l, off - st[l - 1] + 1, el, ec, tt in Name, val))
+    return out
 
 
 def oracle(lang, code, reply):
@@ -42,20 +199,25 @@ def oracle(lang, code, reply):
     if d is None:
         return ["exception: " + reply]
     ms, total = d
-    from codelimit.common.lexer_utils import lex
-    toks = lex(sr.lexer_for(lang), code, True)
     lines = code.split("\n")
     nlines = len(lines)
+    readings = [code_tokens(lang, code)]
+    if code.startswith(scan_streams.BOM):
+        readings.append(code_tokens(lang, code, 1))
+    bad = []
+    for k, toks in enumerate(readings):
+        bad = oracle_on(toks, lines, nlines, ms, total)
+        if not bad:
+            break
+    return bad
+
+
+def oracle_on(toks, lines, nlines, ms, total):
     starts = {}
     ends = {}
     for i, t in enumerate(toks):
-        starts.setdefault((t.location.line, t.location.column), i)
-        parts = t.value.split("\n")
-        if len(parts) == 1:
-            e = (t.location.line, t.location.column + len(t.value))
-        else:
-            e = (t.location.line + len(parts) - 1, len(parts[-1]) + 1)
-        ends[e] = i
+        starts.setdefault((t[0], t[1]), i)
+        ends[(t[2], t[3])] = i
     bad = []
     prev = None
     for (name, sl, sc, el, ec, ln) in ms:
@@ -66,14 +228,14 @@ def oracle(lang, code, reply):
             bad.append("%s: columns out of range (start col %d in a line of %d, end col %d in a line of %d)" % (tag, sc, len(lines[sl - 1]), ec, len(lines[el - 1]))); continue
         i = starts.get((sl, sc)); j = ends.get((el, ec))
         if i is None:
-            bad.append("%s: does not start at a code token" % tag); continue
+            bad.append("%s: does not start at a code token (the text there is %r)" % (tag, lines[sl - 1][sc - 1:sc + 11])); continue
         if j is None:
-            bad.append("%s: does not end just past a code token" % tag); continue
+            bad.append("%s: does not end just past a code token (the text before it is %r)" % (tag, lines[el - 1][max(0, ec - 9):ec - 1])); continue
         if i > j:
             bad.append("%s: ends before it starts" % tag); continue
-        if not any(t.is_name() and t.value == name for t in toks[i:j + 1]):
+        if not any(t[4] and t[5] == name for t in toks[i:j + 1]):
             bad.append("%s: name is not the text of an identifier token inside the span" % tag)
-        code_lines = len({t.location.line for t in toks[i:j + 1]})
+        code_lines = len({t[0] for t in toks[i:j + 1]})
         if not (1 <= ln <= code_lines):
             bad.append("%s: length %d not within 1..%d code-bearing lines" % (tag, ln, code_lines))
         if prev is not None and not (prev < (sl, sc)):
@@ -100,23 +262,37 @@ def real_total(lang, code):
 
 def correspond(ctx):
     cs = cases(ctx)
-    real = sr.real_scan_many(cs)
+    heavy = scan_streams.Heavy(_big_work, big_jobs(ctx))          # runs while the small inputs are compared with the model
+    both = scan_streams.chunked_map(_chunk_work, cs)                # real analysis and direct oracle side by side
+    real = [r for (r, _) in both]
     model = sr.model_scan_many([sr.scan_request(l, c) for (l, c) in cs])
     dis, fails = [], []
     nontrivial = set()
     dist = {"with_functions": 0, "measurements": 0, "errors": 0}
-    for (lang, code), r, m in zip(cs, real, model):
+    for (lang, code), (r, obad), m in zip(cs, both, model):
         inp = {"language": lang, "code": code}
         if r != m:
             dis.append({"stream": "scan/%s" % lang, "input": inp, "model": m[:300], "impl": r[:300]})
-        for b in oracle(lang, code, r):
+        for b in obad:
             fails.append({"input": inp, "observed": r[:300], "required": b})
         d = sr.decode_scan(r)
         if d and d[0]:
             nontrivial.add((lang, code)); dist["with_functions"] += 1; dist["measurements"] += len(d[0])
         if d is None:
             dist["errors"] += 1
-    for (lang, code) in cs[:ctx.pick(60, 600)]:
+    nbig, bfails = big_failures(ctx, dist, heavy)
+    fails += bfails
+    dist["byte_order_mark"] = sum(1 for (_, c) in cs if c.startswith(scan_streams.BOM))
+    dist["bom_without_newline_with_functions"] = sum(1 for (l, c), r in zip(cs, real) if c.startswith(scan_streams.BOM) and "\n" not in c and r.startswith("ok") and not r.startswith("ok 0 "))
+    dist["without_newline_with_functions"] = sum(1 for (l, c), r in zip(cs, real) if "\n" not in c and r.startswith("ok") and not r.startswith("ok 0 "))
+    probes = 0
+    for (lang, code) in [c for c in cs if len(c[1]) <= 4000][:: max(1, len(cs) // ctx.pick(150, 3000))]:
+        probes += 1
+        for b in second_scan_probe(lang, code):
+            fails.append({"input": {"language": lang, "code": code, "probe": "second-scan"}, "observed": "", "required": b})
+    dist["second_scan_probes"] = probes
+    # the file total through the real _analyze_file (a temp file): the first inputs and a sample of all the others
+    for (lang, code) in cs[:ctx.pick(60, 600)] + cs[ctx.pick(60, 600):: max(1, len(cs) // ctx.pick(60, 600))]:
         try:
             loc, s = real_total(lang, code)
             if loc != s:
@@ -124,8 +300,8 @@ def correspond(ctx):
         except Exception as e:  # noqa
             fails.append({"input": {"language": lang, "code": code}, "observed": repr(e), "required": "_analyze_file completes"})
     return {
-        "evaluations": len(cs), "distinct_nontrivial": len(nontrivial),
-        "rule": "malformed stream (prefixes, suffixes, line/token deletions, duplications, swaps of canonical programs and corpus files; token soups over each language's lexical alphabet; deep nesting; tiny inputs) + canonical programs + vendored corpus; non-trivial = distinct inputs with at least one reported measurement",
+        "evaluations": len(cs) + nbig + probes, "distinct_nontrivial": len(nontrivial) + nbig,
+        "rule": "malformed stream (prefixes, suffixes, line/token deletions, duplications, swaps of canonical programs and corpus files; token soups over each language's lexical alphabet; deep nesting; tiny inputs) + canonical programs + vendored corpus; configuration variants: canonical programs rendered on ONE line without any newline / behind a byte order mark / both, and a share of all other texts likewise (+ a blank replaced by a Unicode separator); single-line ladder 10^2 .. 10^6 characters (string literal, block comment followed by a function, short statements, one-line function; a quarter behind a byte order mark); programs of 10^2 .. 10^4 lines (one function / many functions), whole and cut at a random character - up to 10^4 characters against the model, above by the direct oracle only; second-scan probe on a sample (same token list and Language object, first result mutated; then a fresh analysis); non-trivial = distinct inputs with at least one reported measurement",
         "samples": [{"language": l, "code": c[:120], "impl": r[:120]} for (l, c), r in list(zip(cs, real))[100:103]],
         "exhaustive": False, "distribution": dist,
         "disagreements": dis[:50], "oracle_failures": fails[:50],
@@ -133,19 +309,23 @@ def correspond(ctx):
 
 
 def search(ctx, hints):
-    cs = [(h["language"], h["code"]) for h in hints or [] if h] + list(REGRESS) + scan_streams.soups(ctx, 6000, "c05search") + scan_streams.corpus_cases()
+    cs = [(h["language"], h["code"]) for h in hints or [] if h and "code" in h] + cases(ctx) + scan_streams.soups(ctx, 4000, "c05search")
     real = sr.real_scan_many(cs)
     fails = []
     for (lang, code), r in zip(cs, real):
         for b in oracle(lang, code, r):
             fails.append({"input": {"language": lang, "code": code}, "observed": r[:300], "required": b})
     fails.sort(key=lambda f: len(f["input"]["code"]))
-    return fails[:10]
+    return fails[:10] + big_failures(ctx)[1][:3]
 
 
 def replay(payload):
     inp = payload["input"]
-    r = sr.real_scan(inp["language"], inp["code"])
-    bad = oracle(inp["language"], inp["code"], r)
-    print("%s %r -> %s; %s" % (inp["language"], inp["code"][:80], r[:120], bad or "ok"))
+    code = inp["code"] if "code" in inp else big_text(inp)
+    if inp.get("probe") == "second-scan":
+        r, bad = "", second_scan_probe(inp["language"], code)
+    else:
+        r = sr.real_scan(inp["language"], code)
+        bad = oracle(inp["language"], code, r)
+    print("%s %r%s -> %s; %s" % (inp["language"], code[:80], " ... (%d characters)" % len(code) if len(code) > 80 else "", r[:120], bad or "ok"))
     return not bad
